@@ -68,6 +68,15 @@ EXTRA_STRINGS = [
     "w bs cr nl pc pc nl hs hs w bs nl w nl w",
     "lt pc sp w sp pc gt dl lb w rb nl tb pc pc w",
     "lt pc ex sp pc gt nl sp hs hs sp w cr nl pc pc",
+    # tag heads with odd spacing, closers with blanks, <%doc> holding closer-like text, ## ending in a backslash, %% behind tabs
+    "lt pc TX sp sp gt w lt sl pc TX gt w",
+    "lt pc TX nl tb gt w nl lt sl pc TX gt",
+    "lt pc TX sp sl gt w",
+    "lt pc sp TX gt w pc gt w",
+    "w lt sl pc sp TX sp gt",
+    "lt pc DC gt lt sl pc DC sp gt w lt sl pc w gt lt sl pc DC gt w",
+    "hs hs w bs nl w nl w",
+    "tb tb pc pc w nl sp tb pc pc pc nl tb pc pc",
     # suspicious characters (run with EVERY class behind o / v): first / last character, after a newline, before a directive
     "o w nl o dl lb w rb o",
     "v w nl v dl lb w rb v",
